@@ -283,7 +283,7 @@ def join_pair(rnd):
             return _leaf(rnd)
         if r < 0.75:
             return matcher_list(rnd)
-        return matcher.parse(rnd.choice(['[wl_surface, wl_display]', '[.sync ! wl_display]', '[!3]', '[* ! .commit]', '[wl_display]', '[*]']))
+        return matcher.parse(rnd.choice(['wl_surface, wl_display', '.sync ! wl_display', '!3', '* ! .commit', 'wl_display, .sync ! 3, .commit', 'wl_surface ! wl_display']))
     new = one()
     old = one()
     if rnd.random() < 0.5:
